@@ -5,10 +5,12 @@ import (
 	"crypto/sha256"
 	"fmt"
 	"os"
+	"os/exec"
 	"path/filepath"
 	"runtime"
 	"sort"
 	"strings"
+	"sync"
 	"time"
 
 	"github.com/elliotchance/gedcom/v39"
@@ -169,13 +171,16 @@ func init() {
 		Run:        c19Run,
 		Batch:      func(tier string, n int) int { return 1 },
 		Rule: "generated family graphs, half of them with hostile features (source and individual pointers with path separators or equal to fixed page names, people and places named like fixed pages or collapsing to the same file key, same-name people, surnames starting with digits/symbols/multi-byte letters, empty names) x visibility x page-group subsets, published into a recording FileWriter by the race-built worker. " +
-			"monitors: plain file names; no name written twice; every href / location.href target (fragment stripped, external links excluded) is '#' or a written file; determinism differential (3 repetitions, jobs 1/2/8/16, seeded schedule perturbation at the pub.* hooks, publish(A) before publish(B) vs B alone, the same document object re-published under a sequence of different options vs fresh decodes); race-detector logs; FAULT ENUMERATION: a writer that fails at the k-th file for EVERY k (jobs 1; a rotating sample of k for jobs 2 and 8), once or from there on (Publish must return an error, with jobs=1 no WriteFile call may follow the failing one, Publish must return: two goroutine dumps in a row in which the publisher is parked and nothing of the library can run are a violation); every 3rd case the real 'gedcom publish' into a scratch directory (nothing created outside the output directory; identical to the library output). non-trivial = site with at least 5 files and one internal link; distinct by text + options",
+			"monitors: plain file names; no name written twice; every href / location.href target (fragment stripped, external links excluded) is '#' or a written file; determinism differential (3 repetitions, jobs 1/2/8/16, seeded schedule perturbation at the pub.* hooks, publish(A) before publish(B) vs B alone, the same document object re-published under a sequence of different options vs fresh decodes); race-detector logs; FAULT ENUMERATION: a writer that fails at the k-th file for EVERY k (jobs 1; a rotating sample of k for jobs 2 and 8), once or from there on (Publish must return an error, with jobs=1 no WriteFile call may follow the failing one, Publish must return: two goroutine dumps in a row in which the publisher is parked and nothing of the library can run are a violation); every 3rd case the real 'gedcom publish' into a scratch directory (nothing created outside the output directory; identical to the library output), and then again under strace, which makes the k-th write / openat / close on an output file fail with ENOSPC, EIO, EACCES, EDQUOT or EMFILE, once or from there on, with 1, 4 and 8 jobs: whenever strace's log shows a failed call the command must end, and not with status 0. non-trivial = site with at least 5 files and one internal link; distinct by text + options",
 		Floors: func(a *fw.Agg, tier string) []string {
 			var f []string
 			for _, k := range []string{"sites", "links-checked", "determinism-comparisons", "fault-injections", "after-other-document", "cli-runs", "hostile-documents"} {
 				if a.Counters[k] < 20 {
 					f = append(f, fmt.Sprintf("%s=%d < 20", k, a.Counters[k]))
 				}
+			}
+			if a.Counters["real-file-system-faults-skipped-strace-not-usable"] == 0 && a.Counters["real-file-system-faults"] < 10 {
+				f = append(f, fmt.Sprintf("real-file-system-faults=%d < 10", a.Counters["real-file-system-faults"]))
 			}
 			if n := a.ClassCount("consume-interleaving"); n < 20 {
 				f = append(f, fmt.Sprintf("only %d distinct consumer interleavings observed (< 20)", n))
@@ -625,9 +630,121 @@ func c19Run(c *fw.Ctx, i int) {
 				c.Violation("cli-publish-"+rep.Sig(), fmt.Sprintf("gedcom publish -jobs 4 (built with -race):\n%s", clip(rep.Text, 2500)), payload)
 			}
 		}
+		if err == nil && len(base.Dups) == 0 {
+			c19RealFaults(c, i, bin, sandbox, out, args, base.names(), payload)
+		}
 	}
 	if c.WantSample("site") {
 		sort.Strings(notes)
 		c.Sample("site", map[string]interface{}{"files": len(base.Files), "internal_links": internal, "visibility": string(vis), "mask": fmt.Sprintf("%06b", mask), "hostile_features": notes, "fault_points": nFiles})
+	}
+}
+
+// ---- faults of the real file system under the real binary ----
+//
+// The failing writer above fails where the FileWriter interface says it may:
+// WriteFile returns an error. The writer people use is DirectoryFileWriter,
+// and what fails there is a system call: the file cannot be created, the
+// disk is full in the middle of a page, the close reports a deferred write
+// error. strace makes the k-th such call on an output file fail (once, or
+// from there on) under 'gedcom publish'; the monitor reads strace's log for
+// the calls that were really failed and demands what the property says:
+// the command ends, and not with status 0.
+
+var (
+	c19StraceOnce sync.Once
+	c19StraceOK   bool
+)
+
+func c19StraceUsable() bool {
+	c19StraceOnce.Do(func() {
+		p, err := exec.LookPath("strace")
+		if err != nil {
+			return
+		}
+		c19StraceOK = exec.Command(p, "-f", "-o", "/dev/null", "-e", "trace=close", "-e", "inject=close:error=EIO:when=60000", "/bin/true").Run() == nil
+	})
+	return c19StraceOK
+}
+
+var c19FaultPlans = []struct {
+	call, errno string
+}{
+	{"write", "ENOSPC"}, {"openat", "ENOSPC"}, {"close", "EIO"}, {"write", "EIO"}, {"openat", "EACCES"}, {"close", "ENOSPC"}, {"write", "EDQUOT"}, {"openat", "EMFILE"},
+}
+
+func c19RealFaults(c *fw.Ctx, i int, bin, sandbox, out string, args []string, names []string, payload interface{}) {
+	if !c19StraceUsable() {
+		c.Count("real-file-system-faults-skipped-strace-not-usable", 1)
+		return
+	}
+	var paths []string
+	for _, n := range names {
+		if n == "" || n == "." || n == ".." || strings.ContainsAny(n, "/\\\x00") {
+			return
+		}
+		paths = append(paths, "-P", filepath.Join(out, n))
+	}
+	if len(paths) == 0 || len(paths) > 600 {
+		return
+	}
+	rounds := 3
+	if c.Thorough() {
+		rounds = 6
+	}
+	for rnd := 0; rnd < rounds; rnd++ {
+		plan := c19FaultPlans[(i/3+rnd*3)%len(c19FaultPlans)]
+		k := []int{1, 2, 3, 7, 20, 61}[(i/3+rnd)%6]
+		if plan.call != "write" && k > len(names) {
+			k = 1 + (i+rnd)%len(names)
+		}
+		persistent := (i/3+rnd)%2 == 1
+		jobs := []string{"1", "4", "8"}[(i/3+rnd)%3]
+		when := fmt.Sprint(k)
+		mode := "once"
+		if persistent {
+			when += "+"
+			mode = "from-there-on"
+		}
+		os.RemoveAll(out)
+		os.MkdirAll(out, 0o755)
+		stlog := filepath.Join(sandbox, fmt.Sprintf("strace-%d.log", rnd))
+		sargs := []string{"-f", "-o", stlog, "-e", "trace=" + plan.call, "-e", fmt.Sprintf("inject=%s:error=%s:when=%s", plan.call, plan.errno, when)}
+		sargs = append(sargs, paths...)
+		sargs = append(sargs, bin)
+		for j := 0; j < len(args); j++ {
+			if args[j] == "-jobs" && j+1 < len(args) {
+				sargs = append(sargs, "-jobs", jobs)
+				j++
+				continue
+			}
+			sargs = append(sargs, args[j])
+		}
+		outS, err, okRun := runCLI(c, "cli-publish-under-fault", payload, append(os.Environ(), "GORACE=halt_on_error=0 exitcode=0 log_path="+filepath.Join(sandbox, "race-fault")), 600, "strace", sargs...)
+		if !okRun {
+			return
+		}
+		logb, _ := os.ReadFile(stlog)
+		injected := strings.Count(string(logb), "(INJECTED)")
+		if injected == 0 {
+			c.Count("real-file-system-faults-not-reached", 1)
+			if err != nil {
+				// nothing was failed, so the command has no reason to fail
+				c.Violation("fault:real-file-system:failed-without-a-fault", fmt.Sprintf("gedcom publish (jobs %s) under strace with no call failed ended with %v:\n%s", jobs, err, clip(outS, 1200)), payload)
+			}
+			continue
+		}
+		c.Count("real-file-system-faults", 1)
+		c.Class("real-file-system-fault", fmt.Sprintf("%s:%s:%s:jobs=%s", plan.call, plan.errno, mode, jobs))
+		how := fmt.Sprintf("%s on an output file failed with %s (call %s of a thread, %s; %d calls failed in all; jobs %s)", plan.call, plan.errno, when, mode, injected, jobs)
+		if err == nil {
+			c.Violation("fault:real-file-system:exit-status-0:"+plan.call, fmt.Sprintf("%s and gedcom publish ended with status 0 as if the site had been written:\n%s", how, clip(outS, 1200)), payload)
+			continue
+		}
+		if strings.Contains(outS, "panic: ") || strings.Contains(outS, "fatal error: ") {
+			c.Count("real-file-system-faults-ending-in-a-go-panic(observed, not demanded otherwise)", 1)
+		} else {
+			c.Count("real-file-system-faults-ending-in-an-error-message", 1)
+		}
 	}
 }
